@@ -664,10 +664,12 @@ func (c *Conn) reconnect(ctx context.Context) error {
 	if err := resErr; err != nil {
 		return resErr
 	}
-	c.wireConn = res
 	if !c.state.CompareAndSwap(connStatusReconnecting, connStatusConnected) {
-		panic(errors.Errorf("unexpected error: expected reconnecting but %v", c.state.current))
+		// Close was called while the new connection was being established: do not install it
+		res.Close()
+		return errors.ErrConnectionClosed
 	}
+	c.wireConn = res
 	return nil
 }
 
